@@ -235,6 +235,14 @@ impl ServerWorld {
             "allowOther" => Some(AccessControlConfig { allow: set(vec![other]), deny: None }),
             "denyA" => Some(AccessControlConfig { allow: None, deny: set(vec![self.a_id]) }),
             "denyOther" => Some(AccessControlConfig { allow: None, deny: set(vec![other]) }),
+            "allowOther_denyOther" => Some(AccessControlConfig {
+                allow: set(vec![other]),
+                deny: set(vec![AccountId::random()]),
+            }),
+            "allowA_denyOther" => Some(AccessControlConfig {
+                allow: set(vec![self.a_id]),
+                deny: set(vec![other]),
+            }),
             "allowA_denyA" => Some(AccessControlConfig {
                 allow: set(vec![self.a_id]),
                 deny: set(vec![self.a_id]),
